@@ -22,17 +22,27 @@ type c09Tunnel struct {
 	User      int
 	StartUs   int
 	Seed      int64
+	LiveMs    int // long-lived: how long the tunnel stays open with traffic in both directions
 }
 
 func CheckC09(l *Lab, verifDir string) int {
 	rep := NewReport("C09", l.Tier, l.Seed, "exploration", verifDir)
-	rep.Rule = "rounds of N in {8,16,32,64} concurrent tunnels (both transports, several users) against the race-instrumented real binary, each tunnel doing one of: streams then close, CLOSE_CHANNEL while the host is still streaming, out-of-order handshake while the host is streaming, keep-alive bursts, FIN / RST of the websocket or of legacy IN / OUT mid-stream, connect-disconnect storms, simultaneous RDG_IN_DATA requests under one connection id, early FIN, tunnel-auth only, a tunnel alive > 1 s that keeps sending (idle timeout configured negative on one gateway, positive on the other); PRNG start offsets and delay points (registry, tunnel.write, forward.beforeWrite, process.afterRead, legacy.attach). Verdict: any race-detector report, fatal error, panic, process exit, or a client stream that does not parse as whole packets / whose DATA payload is not a prefix of its own host's generator stream. non-trivial = tunnel got at least one response; distinct = interleaving signature of the round (global order of response arrivals per tunnel rank)"
+	rep.Rule = "rounds of N in {8,16,32,64} concurrent tunnels (both transports, several users) against the race-instrumented real binary, each tunnel doing one of: streams then close, CLOSE_CHANNEL while the host is still streaming, out-of-order handshake while the host is streaming, keep-alive bursts, FIN / RST of the websocket or of legacy IN / OUT mid-stream, connect-disconnect storms, simultaneous RDG_IN_DATA requests under one connection id, early FIN, tunnel-auth only, a tunnel alive > 1 s that keeps sending (idle timeout configured negative on one gateway, positive on the other); beside the rounds, one tunnel per transport on a gateway of their own stays open for 33 s (quick) / 125 s (thorough) with paced traffic in both directions and keep-alives, so that per-tunnel timers with periods of tens of seconds fire while the relay writes; PRNG start offsets and delay points (registry, tunnel.write, forward.beforeWrite, process.afterRead, legacy.attach). Verdict: any race-detector report, fatal error, panic, process exit, or a client stream that does not parse as whole packets / whose DATA payload is not a prefix of its own host's generator stream. non-trivial = tunnel got at least one response; distinct = interleaving signature of the round (global order of response arrivals per tunnel rank)"
 	rounds := l.Pick(40, 600)
 	sizes := []int{8, 16, 32, 64}
 	rnd := NewRand(l.Seed, "c09")
 	kinds := []string{"ntlm", "openid"}
 	var idp *IdP
 	totalOverlap := 0
+	// beside all of this, two tunnels on a gateway of their own stay open for longer than half a minute
+	// (two minutes in thorough) with a trickle of traffic in both directions: per-tunnel timers with
+	// periods of tens of seconds (keep-alives, pings, idle checks) fire while the relay is writing
+	longDone := make(chan struct{})
+	go func() {
+		defer close(longDone)
+		c09LongLived(l, rep, l.Pick(33000, 125000))
+	}()
+	defer func() { <-longDone }()
 	for ki, kind := range kinds {
 		pointsList := []string{
 			"registry=50:500,tunnel.write=15:300,forward.beforeWrite=15:300,process.afterRead=20:300,legacy.attach=30:500",
@@ -95,11 +105,44 @@ func CheckC09(l *Lab, verifDir string) int {
 	for i := 0; i < l.Pick(6, 40); i++ {
 		c09TABurst(l, rep, i)
 	}
+	<-longDone
 	rep.Count("overlap_windows", totalOverlap)
 	if totalOverlap == 0 {
 		rep.Inconclusive("no tunnel had a packet-loop response overlapping a live relay")
 	}
 	return rep.Finish(l.Pick(4, 20))
+}
+
+// c09LongLived: see CheckC09. Same verdicts as every other tunnel of the check (race reports, faults,
+// process exit, unparseable or foreign bytes at the client), on a gateway with a positive idle timeout.
+func c09LongLived(l *Lab, rep *Report, liveMs int) {
+	m, err := l.NewMultiFixture(MultiOpts{Kind: "ntlm", N: 2, Race: true, Points: "tunnel.write=5:200,forward.beforeWrite=5:200",
+		Mutate: func(c *GWConfig) { c.IdleTimeout = IntP(30) }})
+	if err != nil {
+		rep.Inconclusive("long-lived fixture: " + err.Error())
+		return
+	}
+	defer m.Close()
+	var ts []c09Tunnel
+	for i, tr := range Transports() {
+		ts = append(ts, c09Tunnel{Rank: i, Action: "long-lived", Transport: tr, User: i % len(m.Users), Seed: int64(l.Seed)*977 + int64(i), LiveMs: liveMs})
+	}
+	c09Round(rep, m, 100000, ts)
+	rep.Count("long_lived_tunnels", len(ts))
+	rep.Set("long_lived_ms", liveMs)
+	g := m.GW
+	if !g.Alive() {
+		rep.Violate("C09/gateway-exited", "the gateway process exited while two long-lived tunnels were open", g.LogTail(4000))
+	}
+	if fl := g.Faults(); len(fl) > 0 {
+		rep.Violate("C09/gateway-fault", "runtime fault in the gateway log (long-lived tunnels): "+fl[0], g.FaultContext(4000))
+	}
+	g.Stop()
+	n, d := g.RaceReports()
+	rep.Count("race_reports", n)
+	for _, r := range d {
+		rep.Violate("C09/data-race/"+r.Key, "data race reported by the race detector (long-lived tunnels): "+r.Key, r.Text)
+	}
 }
 
 type seqEv struct {
@@ -279,6 +322,25 @@ func c09Tunnel1(m *MultiFixture, tn c09Tunnel) (TSnapshot, []byte, bool, error) 
 				t.Send(Data(GenStream(key+uint64(i), 1+rnd.Intn(200))))
 			}
 			time.Sleep(10 * time.Millisecond)
+		}
+		<-hostDone
+		t.WaitDataBytes(len(hostStream), env.W)
+		t.Send(CloseChannel(0))
+		t.WaitEnd(env.W, false)
+	case "long-lived":
+		ticks := tn.LiveMs / 50
+		hostStream = GenStream(key, ticks*500)
+		go func() {
+			defer close(hostDone)
+			bc.SendPlan(hostStream, []int{700, 300}, func(i int) { time.Sleep(50 * time.Millisecond) })
+		}()
+		for i := 0; i < tn.LiveMs/100; i++ {
+			if i%3 == 0 {
+				t.Send(Keepalive())
+			} else {
+				t.Send(Data(GenStream(key+uint64(i), 1+rnd.Intn(400))))
+			}
+			time.Sleep(100 * time.Millisecond)
 		}
 		<-hostDone
 		t.WaitDataBytes(len(hostStream), env.W)
